@@ -27,8 +27,12 @@ definitions `IsTP`, `IsUnital`, `IsHP`, `IsPositive`, `IsCP` (all amplifications
    `positive_of_choi_psd`, `not_positive_of_product_witness`.
 
 Extremality (Choi's criterion) is cited, not proved; `extremalDecide` evaluates it exactly on a basis of
-`span{K_i}`.  The exact rank (`rankQ`, Gauss–Jordan over `ℚ[i]`) is executable only; `choiRank_le_kraus` bounds the
-Choi rank by the number of Kraus operators.
+`span{K_i}`.  The exact rank (`rankQ`, Gaussian elimination over `ℚ[i]`, the shared routine of `Toq/Core/Rank.lean`) is
+proved correct: `rankQ_eq_rank` (= Mathlib's `Matrix.rank` of the denoted complex matrix), `choiRank_exact` (the rank the
+driver reports is the rank of the Choi matrix), `pivotCols_length` / `pivotCols_linearIndependent` (the columns
+`extremalDecide` reads its basis from are `rank J` independent columns), `rankQ_eq_rows_iff` (the final test
+`rank == r²` of both extremality procedures decides linear independence of the `r²` rows);
+`choiRank_le_kraus` bounds the Choi rank by the number of Kraus operators.
 -/
 
 section Characterisations
@@ -1173,3 +1177,48 @@ theorem reductionAct_eq_spec (d : Nat) (k : ℂ) (X : Nat → Nat → ℂ) :
 
 end Toq.C06
 end Combined
+
+
+/-! ## the exact rank oracle is Mathlib's rank (correctness of the elimination) -/
+section ExactRank
+open Toq.ChannelProps Toq.ChanPropSpec Toq.ChanPropProofs Matrix
+namespace Toq.C06
+
+/-- **The exact rank routine is correct.**  For every size and all exact rows, `rankQ r c M` (Gaussian elimination over
+    `ℚ[i]`) equals Mathlib's `Matrix.rank` of the complex `r × c` matrix that the rows denote. -/
+theorem rankQ_eq_rank (r c : Nat) (M : QM) : rankQ r c M = (qmToM r c M).rank :=
+  Toq.Rank.rankFn_eq_rank r c M.get
+
+/-- **The reported Choi rank is the Choi rank.**  If the exact matrix `c.J` denotes the Choi matrix of `Φ`, the field
+    `rank` of the driver's report (the oracle for `choi_rank`, and the input of the unitarity verdict) equals
+    `Matrix.rank (choi Φ)`. -/
+theorem choiRank_exact {k : Nat} (c : ChoiForm) (Φ : LMap c.di c.dO) (L : Option (EMat (c.di * c.dO) k))
+    (v : Option (EMat (c.di * c.dO) 1)) (h : choi Φ = toChoi c.J) : (report c L v).rank = (choi Φ).rank := by
+  rw [h, rank_toChoi]
+  show rankQ (c.di * c.dO) (c.di * c.dO) c.toQM = _
+  rw [rankQ_eq_rank, qmToM_toQM]
+
+/-- **Pivot columns: as many as the rank.** -/
+theorem pivotCols_length (r c : Nat) (M : QM) : (pivotCols r c M).length = (qmToM r c M).rank :=
+  Toq.Rank.pivotsFn_length r c M.get
+
+/-- **Pivot columns are independent columns of the matrix**: every listed index is a column index, and the listed columns
+    of the denoted complex matrix are linearly independent — with `pivotCols_length`, a basis of the column space.  These are
+    the columns of the Choi matrix from which `extremalDecide` reads its basis `W_1 … W_r` of `span{K_i}`. -/
+theorem pivotCols_linearIndependent (r c : Nat) (M : QM) :
+    (∀ q ∈ pivotCols r c M, q < c) ∧
+    LinearIndependent ℂ (fun t : Fin (pivotCols r c M).length => fun i : Fin r => (M.get i.val ((pivotCols r c M)[t.val])).toC) :=
+  ⟨Toq.Rank.pivotsFn_lt r c M.get, Toq.Rank.pivotsFn_linearIndependent r c M.get⟩
+
+/-- **The final test of the extremality procedures decides linear independence.**  `rankQ r c M = r` (for `extremalDecide`
+    and `extremalAsCoded`: the `r²` flattened operators `W_kᴴ W_l` as rows, compared with `r²`) holds exactly when the `r`
+    rows of the denoted complex matrix are linearly independent. -/
+theorem rankQ_eq_rows_iff (r c : Nat) (M : QM) : rankQ r c M = r ↔ LinearIndependent ℂ (qmToM r c M).row := by
+  rw [rankQ_eq_rank, Toq.Rank.linearIndependent_row_iff_rank]
+
+/-- the routine on a concrete complex matrix: `[[1, i], [i, -1]]` has rank 1 and pivot column 0 -/
+example : rankQ 2 2 #[#[⟨1, 0⟩, ⟨0, 1⟩], #[⟨0, 1⟩, ⟨-1, 0⟩]] = 1 ∧ pivotCols 2 2 #[#[⟨1, 0⟩, ⟨0, 1⟩], #[⟨0, 1⟩, ⟨-1, 0⟩]] = [0] := by
+  decide +kernel
+
+end Toq.C06
+end ExactRank
